@@ -42,6 +42,7 @@ type world struct {
 	faultArg  int
 	crashStep int // -1 = none
 	crashTorn int
+	crashAfter bool // the step is carried out, then the process dies (a crash between two durable steps)
 	inOp      bool
 
 	// identities
@@ -66,6 +67,9 @@ func (f *faultFile) Write(p []byte) (int, error) {
 	w.step++
 	if w.crashStep == s {
 		t := w.crashTorn
+		if w.crashAfter {
+			t = len(p)
+		}
 		if t > len(p) {
 			t = len(p)
 		}
@@ -101,6 +105,9 @@ func (f *faultFile) Truncate(sz int64) error {
 	s := w.step
 	w.step++
 	if w.crashStep == s {
+		if w.crashAfter {
+			f.File.Truncate(sz)
+		}
 		panic(crashSig{})
 	}
 	if w.faultStep == s && w.faultKind == "truncerr" {
@@ -130,6 +137,9 @@ func (d *faultDB) Update(fn func(tx walletdb.ReadWriteTx) error, reset func()) e
 	s := w.step
 	w.step++
 	if w.crashStep == s {
+		if w.crashAfter {
+			d.DB.Update(fn, reset)
+		}
 		panic(crashSig{})
 	}
 	if w.faultStep == s && w.faultKind == "dberr" {
@@ -301,7 +311,7 @@ func (w *world) run(f func() string) (obs string) {
 	w.inOp = true
 	defer func() {
 		w.inOp = false
-		w.faultKind, w.faultStep, w.crashStep = "", -1, -1
+		w.faultKind, w.faultStep, w.crashStep, w.crashAfter = "", -1, -1, false
 		if x := recover(); x != nil {
 			if _, ok := x.(crashSig); ok {
 				obs = "crashed"
@@ -535,6 +545,10 @@ func (g *gen) mutate() bool {
 			w.crashTorn = 1 << 20 // the whole write
 		}
 		armed = fmt.Sprintf("crash %d %d", w.crashStep, w.crashTorn)
+		w.crashAfter = g.r.Intn(3) == 0
+		if w.crashAfter {
+			armed = fmt.Sprintf("crashafter %d", w.crashStep)
+		}
 	case g.faults && x < 30:
 		kinds := []string{"shortwrite", "writeerr", "truncerr", "syncerr", "dberr", "dbcommit", "dbcommit"}
 		w.faultKind = kinds[g.r.Intn(len(kinds))]
@@ -641,7 +655,7 @@ func (g *gen) mutate() bool {
 		w.close()
 		obs = errClass(w.open())
 	}
-	w.faultKind, w.faultStep, w.crashStep = "", -1, -1
+	w.faultKind, w.faultStep, w.crashStep, w.crashAfter = "", -1, -1, false
 	g.emit(op, obs)
 	if obs == "crashed" {
 		w.close()
